@@ -104,7 +104,7 @@ fn advance_case(start: usize) {
   let want = if d[start] >= target { start } else { first_at_or_after(&d, start, target) };
   assert!(st.idx == want, "C09: advance_to does not land on the first posting at or after the target");
   assert!(moved == want - start, "C09: advance_to reports a wrong number of skipped postings");
-  kani::cover!(want == 3 && start == 0, "gallop over two postings");
+  kani::cover!(want > start && want < 4, "moved forward to a later posting");
   kani::cover!(want == 4, "ran off the end of the list");
   std::mem::forget(st);
 }
